@@ -15,7 +15,17 @@ import time as _time
 
 import pypandoc
 
-pypandoc.convert_text = lambda text, to, format=None, extra_args=(): text  # noqa: E731
+PANDOC_FAIL_GEN = [None]       # index of the generation (in this process) during which pandoc "dies"
+GEN_NO = [-1]
+
+
+def _convert_text(text, to, format=None, extra_args=()):
+    if PANDOC_FAIL_GEN[0] is not None and GEN_NO[0] == PANDOC_FAIL_GEN[0]:
+        raise RuntimeError("pandoc died with exitcode 83 during conversion (injected)")
+    return text
+
+
+pypandoc.convert_text = _convert_text
 
 READS = [0]
 ARMED = [False]
@@ -84,6 +94,8 @@ def main(argv):
             count_file = argv[i + 1]; i += 2
         elif argv[i] == "--stdin":
             use_stdin = True; i += 1
+        elif argv[i] == "--pandoc-fail-gen":
+            PANDOC_FAIL_GEN[0] = int(argv[i + 1]); i += 2
         elif argv[i] == "--cd":
             pairs.append(("--cd", argv[i + 1])); i += 2
         else:
@@ -98,6 +110,7 @@ def main(argv):
             os.chdir(out)          # a build worker moves to the next library's directory between generations
             continue
         n += 1
+        GEN_NO[0] = n
         ARMED[0] = True
         try:
             if use_stdin and n == 0:
